@@ -327,6 +327,12 @@ pub fn run_cb() -> i32 {
                     id: usize,
                     flag: Arc<AtomicBool>,
                     waker: Arc<Mutex<Option<std::task::Waker>>>,
+                    dropped: Arc<AtomicBool>,
+                }
+                impl Drop for Manual {
+                    fn drop(&mut self) {
+                        self.dropped.store(true, Ordering::SeqCst);
+                    }
                 }
                 impl Future for Manual {
                     type Output = usize;
@@ -345,17 +351,29 @@ pub fn run_cb() -> i32 {
                     let (exec, scheduler) = executor::<usize>().unwrap();
                     let delivered = Rc::new(RefCell::new(Vec::new()));
                     let d2 = delivered.clone();
-                    el.handle().insert_source(exec, move |r, _, _| d2.borrow_mut().push(r)).map_err(|e| e.error).unwrap();
+                    let tok = el.handle().insert_source(exec, move |r, _, _| d2.borrow_mut().push(r)).map_err(|e| e.error).unwrap();
+                    let mut scheduler = Some(scheduler);
+                    let mut dropped: Vec<Arc<AtomicBool>> = Vec::new();
                     let mut flags: Vec<Arc<AtomicBool>> = Vec::new();
                     let mut wakers: Vec<Arc<Mutex<Option<std::task::Waker>>>> = Vec::new();
                     for _ in 0..64 {
                         flags.push(Arc::new(AtomicBool::new(false)));
                         wakers.push(Arc::new(Mutex::new(None)));
+                        dropped.push(Arc::new(AtomicBool::new(false)));
                     }
                     for op in &ops {
                         let (c, i) = (op.as_bytes()[0], op[1..].parse::<usize>().unwrap_or(0));
                         match c {
-                            b's' => scheduler.schedule(Manual { id: i, flag: flags[i].clone(), waker: wakers[i].clone() }).unwrap(),
+                            b's' => {
+                                if let Some(s) = scheduler.as_ref() {
+                                    s.schedule(Manual { id: i, flag: flags[i].clone(), waker: wakers[i].clone(), dropped: dropped[i].clone() }).unwrap()
+                                }
+                            }
+                            // x: the executor is removed from the loop and dropped (the wakers stored outside stay alive)
+                            b'x' => {
+                                el.handle().remove(tok);
+                                scheduler = None;
+                            }
                             b'c' => {
                                 flags[i].store(true, Ordering::SeqCst);
                                 let wk = wakers[i].lock().unwrap().clone();
@@ -373,11 +391,13 @@ pub fn run_cb() -> i32 {
                         }
                     }
                     let v = delivered.borrow().clone();
-                    v
+                    let gone: Vec<usize> = (0..64).filter(|i| dropped[*i].load(Ordering::SeqCst)).collect();
+                    (v, gone)
                 });
+                let list = |v: &Vec<usize>| v.iter().map(|x| x.to_string()).collect::<Vec<_>>().join(",");
                 match res {
-                    Ok(v) => writeln!(out, "slab delivered=[{}] panicked=0", v.iter().map(|x| x.to_string()).collect::<Vec<_>>().join(",")).unwrap(),
-                    Err(_) => writeln!(out, "slab delivered=[] panicked=1").unwrap(),
+                    Ok((v, gone)) => writeln!(out, "slab delivered=[{}] dropped=[{}] panicked=0", list(&v), list(&gone)).unwrap(),
+                    Err(_) => writeln!(out, "slab delivered=[] dropped=[] panicked=1").unwrap(),
                 }
             }
             "stream" => {
